@@ -245,3 +245,91 @@ def popon_program(rng, ncaps=None, drop=None, gaps=None):
         tc = [fr // (30 * 3600), (fr // (30 * 60)) % 60, (fr // 30) % 60, fr % 30]
         out.append({"tc": tc, "drop": drop, "syms": ln["syms"]})
     return out
+
+
+# ------------------------------------------------------------------ scanning SCC output
+ROW_OF = {}
+for _r, (_hi, _base) in PAC_ROW.items():
+    ROW_OF[(_hi, _base)] = _r
+CTRL_NAME = {v: k for k, v in CTRL.items()}
+
+
+def decode_word(hi, lo):
+    """parity-stripped bytes -> abstract symbol (without w)"""
+    basic, special, ext = tables()
+    inv_basic = {int(v[:2], 16) & 0x7F: k for k, v in basic.items()}
+    if hi in (0x11, 0x12, 0x15, 0x16, 0x17, 0x10, 0x13, 0x14) and 0x40 <= lo <= 0x7F:
+        base = lo & 0x60 if hi != 0x10 else 0x40
+        if hi == 0x10 and lo >= 0x60:
+            return {"k": "BAD"}
+        row = ROW_OF.get((hi, base))
+        if row is None:
+            return {"k": "BAD"}
+        attr = lo & 0x1F
+        if attr >= 0x10:
+            return {"k": "PAC", "r": row, "c": ((attr - 0x10) // 2) * 4, "i": False}
+        return {"k": "PAC", "r": row, "c": 0, "i": (attr // 2) == 7}
+    if hi == 0x14 and 0x20 <= lo <= 0x2F:
+        name = CTRL_NAME.get(lo)
+        if name in ("RU2", "RU3", "RU4"):
+            return {"k": "RU", "n": int(name[2])}
+        return {"k": name if name in ("RCL", "BS", "RDC", "EDM", "CR", "ENM", "EOC") else "NOP"}
+    if hi == 0x17 and 0x21 <= lo <= 0x23:
+        return {"k": "TO", "n": lo - 0x20}
+    if hi == 0x11 and 0x20 <= lo <= 0x2F:
+        return {"k": "MID", "i": lo in (0x2E, 0x2F)}
+    if hi == 0x11 and 0x30 <= lo <= 0x3F:
+        code = "%02x%02x" % (parity(hi), parity(lo))
+        for cp, c in special.items():
+            if c == code:
+                return {"k": "SP", "x": cp}
+        return {"k": "BAD"}
+    if hi in (0x12, 0x13) and 0x20 <= lo <= 0x3F:
+        code = "%02x%02x" % (parity(hi), parity(lo))
+        for cp, c in ext.items():
+            if c == code:
+                return {"k": "EXT", "x": cp}
+        return {"k": "BAD"}
+    if hi >= 0x20:
+        a = inv_basic.get(hi)
+        b = inv_basic.get(lo) if lo else 0
+        if a is None or b is None:
+            return {"k": "BAD"}
+        return {"k": "CH", "a": a, "b": b}
+    if hi == 0 and lo == 0:
+        return {"k": "NOP"}
+    return {"k": "BAD"}
+
+
+def scan_scc(text):
+    """-> (header_ok, syntax_ok, lines) with lines [{"tc", "sep", "bytes", "syms"}]"""
+    import re
+    raw = text.split("\n")
+    header_ok = bool(raw) and raw[0] == "Scenarist_SCC V1.0"
+    syntax_ok = True
+    lines = []
+    pat = re.compile(r"^(\d{2}):(\d{2}):(\d{2})([:;])(\d{2})\t((?:[0-9a-fA-F]{4})(?: [0-9a-fA-F]{4})*) ?$")
+    for ln in raw[1:]:
+        if ln.strip() == "":
+            continue
+        m = pat.match(ln)
+        if not m:
+            syntax_ok = False
+            continue
+        words = m.group(6).split(" ")
+        bts = [[int(w[:2], 16), int(w[2:], 16)] for w in words]
+        syms = []
+        prev = None
+        for hi, lo in bts:
+            s = decode_word(hi & 0x7F, lo & 0x7F)
+            ctl = s["k"] not in ("CH", "NOP", "BAD")
+            if ctl and prev is not None and prev[0] == (hi, lo) and prev[1]["w"] == 1:
+                prev[1]["w"] = 2          # the redundant copy of a control pair
+                prev = None
+                continue
+            s["w"] = 1
+            syms.append(s)
+            prev = ((hi, lo), s) if ctl else None
+        lines.append({"tc": [int(m.group(1)), int(m.group(2)), int(m.group(3)), int(m.group(5))], "sep": m.group(4),
+                      "drop": m.group(4) == ";", "bytes": bts, "syms": syms})
+    return header_ok, syntax_ok, lines
